@@ -181,7 +181,7 @@ static int flat_compare(int kind, const flat *want, const flat *got, int unsaved
 }
 
 /* ------------------------------------------------------------------ the model alphabet */
-#define NMODEL 6
+#define NMODEL 7
 #define NPATH 2
 #define MAXPRED 512
 typedef struct {
@@ -216,7 +216,9 @@ static int predict(const mdl *a, void *model, double *out) {
     for (size_t i = 0; i < y->row; i++) for (size_t j = 0; j < y->col; j++) { if (n >= MAXPRED) return -1; out[n++] = y->data[i][j]; }
     DelMatrix(&y);
   } else {
-    CPCAMODEL *m = model; matrix *ss; tensor *bs; initMatrix(&ss); initTensor(&bs);
+    CPCAMODEL *m = model; matrix *ss; tensor *bs;
+    if (!a->tprobe) return 0;     /* model without stored averages (scaling -1): the library's projector needs them, nothing to predict */
+    initMatrix(&ss); initTensor(&bs);
     CPCAScorePredictor(a->tprobe, m, m->super_scores->col, ss, bs);
     for (size_t i = 0; i < ss->row; i++) for (size_t j = 0; j < ss->col; j++) { if (n >= MAXPRED) return -1; out[n++] = ss->data[i][j]; }
     for (size_t k = 0; k < bs->order; k++) for (size_t i = 0; i < bs->m[k]->row; i++) for (size_t j = 0; j < bs->m[k]->col; j++) { if (n >= MAXPRED) return -1; out[n++] = bs->m[k]->data[i][j]; }
@@ -232,6 +234,7 @@ static int predict(const mdl *a, void *model, double *out) {
 static void pred_allowance(mdl *a) {
   static double p1[MAXPRED];
   a->np = predict(a, a->model, a->pred);
+  if (a->np == 0 && a->kind == K_CPCA && !a->tprobe) return;      /* nothing to predict for this model (see predict()) */
   if (a->np <= 0) { fprintf(stderr, "VX-HARNESS-ERROR: C16 setup: probe prediction of %s has %d numbers\n", a->name, a->np); _exit(2); }
   double mx = 0; for (int j = 0; j < a->np; j++) { a->allow[j] = 0; if (!isfinite(a->pred[j])) { fprintf(stderr, "VX-HARNESS-ERROR: C16 setup: probe prediction of %s not finite\n", a->name); _exit(2); } mx = fmax(mx, fabs(a->pred[j])); }
   for (int i = 0; i < a->F.nv; i++) {
@@ -309,6 +312,13 @@ static void build_models(void) {
     MatrixCopy(a, &t->m[0]); MatrixCopy(b, &t->m[1]); MatrixCopy(c, &t->m[2]); MatrixCopy(pa, &p->m[0]); MatrixCopy(pb, &p->m[1]); MatrixCopy(pc, &p->m[2]);
     CPCAMODEL *m; NewCPCAModel(&m); CPCA(t, 0, 2, m);
     M[5] = (mdl){ .kind = K_CPCA, .name = "CPCA-3blocks(7x2|7x3|7x2,npc2,centred)", .model = m, .tprobe = p }; DelTensor(&t); DelMatrix(&a); DelMatrix(&b); DelMatrix(&c); DelMatrix(&pa); DelMatrix(&pb); DelMatrix(&pc); }
+  /* 6: CPCA, 2 blocks (5x2, 5x3), raw data (scaling -1: the colaverage / colscaling lists hold EMPTY vectors), 1 pc */
+  { static const double c0[2] = {2.0, 30.0}, c1[3] = {1e-2, 1.0, 5.0};
+    tensor *t; NewTensor(&t, 2);
+    matrix *a = gen(23, 5, 2, c0, 0.3), *b = gen(24, 5, 3, c1, 0.3);
+    NewTensorMatrix(t, 0, 5, 2); NewTensorMatrix(t, 1, 5, 3); MatrixCopy(a, &t->m[0]); MatrixCopy(b, &t->m[1]);
+    CPCAMODEL *m; NewCPCAModel(&m); CPCA(t, -1, 1, m);
+    M[6] = (mdl){ .kind = K_CPCA, .name = "CPCA-2blocks(5x2|5x3,npc1,raw:empty-average-vectors)", .model = m, .tprobe = NULL }; DelTensor(&t); DelMatrix(&a); DelMatrix(&b); }
   for (int i = 0; i < NMODEL; i++) finish(&M[i]);
 }
 
